@@ -61,6 +61,9 @@
 // progressive-final | stalled-progressive-final), the caller resumes
 // resume_after_us microseconds of virtual time after that YIELD was taken.
 //
+// "cancel_stalled":{"q":1,"mode":"kill","full":true} (C07, shape
+// cancel-to-stalled-callee): the scripted scenario of cancelstalled_test.go.
+//
 // close (C06 only): perform Close / RemoveRealm(realm) before ops[pos]
 // (pos==len(ops): at the end).  in_burst: release it together with ops[pos]
 // (all its ops if that is a burst).  After Router.Close the remaining ops are
@@ -130,6 +133,8 @@ type History struct {
 	AfterCloseHours int           `json:"after_close_hours,omitempty"`
 	// YieldResume: the scripted scenario of yieldresume_test.go instead of ops.
 	YieldResume *YieldResumeSpec `json:"yield_resume,omitempty"`
+	// CancelStalled: the scripted scenario of cancelstalled_test.go instead of ops.
+	CancelStalled *CancelStalledSpec `json:"cancel_stalled,omitempty"`
 }
 
 // usesSession tells whether the op kind addresses session S.
